@@ -238,11 +238,27 @@ func genHeader() string {
 	sb.WriteString("-- GENERATED by /verif/go/extract from protocol/message.go — do not edit.\n")
 	sb.WriteString("import Rpcx.Basic\nnamespace Rpcx.Gen\n\n")
 	sb.WriteString(constText)
+	for _, cn := range []string{"C.magicNumber", "C.MessageType_Request", "C.MessageType_Response", "C.MessageStatusType_Normal", "C.MessageStatusType_Error",
+		"C.CompressType_None", "C.CompressType_Gzip", "C.SerializeType_SerializeNone", "C.SerializeType_JSON", "C.SerializeType_ProtoBuffer",
+		"C.SerializeType_MsgPack", "C.SerializeType_Thrift"} {
+		present := strings.Contains(constText, "def "+cn+" ")
+		noteTie("Header.lean", "const "+cn, present)
+		if !present {
+			addProblem("const "+cn, "constant not found in protocol")
+			sb.WriteString(fallbackText("Header.lean", cn))
+			short := strings.TrimPrefix(cn, "C.")
+			if i := strings.Index(short, "_"); i >= 0 {
+				short = short[i+1:]
+			}
+			consts[short] = binding{cn, kU8}
+		}
+	}
 	sb.WriteString("\n")
 	for _, name := range headerMethods {
 		item := "Header." + name
 		fd := pi.funcs[item]
 		lean := "Header." + lowerFirst(name)
+		var tmp strings.Builder
 		ok := fd != nil && try(item, func() {
 			recv := "h"
 			if len(fd.Recv.List[0].Names) == 1 {
@@ -276,19 +292,24 @@ func genHeader() string {
 				if k != rk {
 					bail("result kind mismatch")
 				}
-				fmt.Fprintf(&sb, "def %s (%s : Header)%s : %s :=\n  %s\n\n", lean, recv, params, leanType(rk), s)
+				fmt.Fprintf(&tmp, "def %s (%s : Header)%s : %s :=\n  %s\n\n", lean, recv, params, leanType(rk), s)
 			} else {
 				body := trHeaderBlock(en, recv, fd.Body.List, "  ")
-				fmt.Fprintf(&sb, "def %s (%s : Header)%s : Header :=\n%s\n", lean, recv, params, body)
+				fmt.Fprintf(&tmp, "def %s (%s : Header)%s : Header :=\n%s\n", lean, recv, params, body)
 			}
 		})
+		if ok {
+			sb.WriteString(tmp.String())
+		}
+		noteTie("Header.lean", item, ok)
 		if !ok {
 			if fd == nil {
 				addProblem(item, "method not found")
 			}
-			fmt.Fprintf(&sb, "-- BROKEN: %s could not be translated (see problems.json)\n\n", item)
+			sb.WriteString(fallbackText("Header.lean", lean))
 		}
 	}
+	sb.WriteString(tieText("Header.lean", "header"))
 	sb.WriteString("end Rpcx.Gen\n")
 	return sb.String()
 }
